@@ -243,3 +243,52 @@ Example C09_temphp_hyp_inhabited :
   h_wf C09_heightpres_example = true /\ h_readable C09_heightpres_example = true /\
   length (t_enc C09_temperature_example) = 54%nat /\ length (h_enc C09_heightpres_example) = 48%nat.
 Proof. vm_compute. repeat split; reflexivity. Qed.
+
+(* ======================================================================================================
+   CAMx WIND files, Model/Wind.v (reader model hand-modelled from camxfiles/wind/Memmap.py and the RecordFile of
+   camxfiles/FortranFileUtil.py that its __init__ walks)
+   ====================================================================================================== *)
+From PNC Require Import Model.Wind Proofs.WindProofs.
+
+Theorem C09_wind_dec_enc : forall c, w_wf c = true ->
+  w_dec (w_nx c) (w_ny c) (w_nz c) (w_stag c) (w_dummy c) (w_enc c) = Some c.
+Proof. exact w_dec_enc. Qed.
+Print Assumptions C09_wind_dec_enc.
+
+(* the Memmap reader model presents exactly the encoded content of every well-formed file (one or more steps, time record
+   with or without the lstagger word) on a grid of two or more cells, PROVIDED the step count is small against the step
+   size: 12 * steps < body + 4 (the reader's step count never counts the 12-byte dummy records) *)
+Theorem C09_wind_reader_presents_content_partial : forall c, w_wf c = true -> w_steps c <> [] -> 2 <= w_nx c * w_ny c ->
+  12 * Z.of_nat (length (w_steps c)) < w_body_bytes c + 4 ->
+  w_mm_read (w_ny c) (w_nx c) (w_enc c) (4 * Z.of_nat (length (w_enc c))) = WOk (w_view_of c).
+Proof. exact w_mm_read_enc. Qed.
+Print Assumptions C09_wind_reader_presents_content_partial.
+
+(* refuted outside that domain, witnesses replayed on the library:
+   - a valid FIVE-step file on a 2x1 grid with one layer (12 * 5 >= 52 + 4) raises: new finding wind-long-file-step-miscount
+     (region 19);
+   - a valid one-step file on a 1x1 grid never returns (the U/V records are as long as the dummy record, the layer-counting
+     loop runs into the end of the file): finding wind-1x1 (region 12) *)
+Definition C09_wind_long : wind :=
+  {| w_nx := 2; w_ny := 1; w_nz := 1; w_stag := Some 0; w_dummy := 0;
+     w_steps := map (fun h => WStep h 4001 [([1065353216; 1073741824], [1077936128; 1082130432])]) [0; 1120403456; 1128792064; 1133903872; 1137180672] |}.
+Definition C09_wind_1x1 : wind :=
+  {| w_nx := 1; w_ny := 1; w_nz := 2; w_stag := Some 0; w_dummy := 0;
+     w_steps := [WStep 0 4001 [([1065353216], [1077936128]); ([1073741824], [1082130432])]] |}.
+Theorem C09_wind_reader_refuted :
+  (w_wf C09_wind_long = true /\ length (w_steps C09_wind_long) = 5%nat /\
+   w_mm_read 1 2 (w_enc C09_wind_long) (4 * Z.of_nat (length (w_enc C09_wind_long))) = WErr) /\
+  (w_wf C09_wind_1x1 = true /\
+   w_mm_read 1 1 (w_enc C09_wind_1x1) (4 * Z.of_nat (length (w_enc C09_wind_1x1))) = WHang).
+Proof. vm_compute. repeat split; reflexivity. Qed.
+Print Assumptions C09_wind_reader_refuted.
+
+Definition C09_wind_example : wind :=
+  {| w_nx := 2; w_ny := 1; w_nz := 2; w_stag := Some 1; w_dummy := 0;
+     w_steps := [WStep 1120403456 4001 [([1; 2], [3; 4]); ([5; 6], [7; 8])];
+                 WStep 1128792064 4001 [([11; 12], [13; 14]); ([15; 16], [17; 18])]] |}.
+Example C09_wind_hyp_inhabited :
+  w_wf C09_wind_example = true /\ w_steps C09_wind_example <> [] /\ 2 <= w_nx C09_wind_example * w_ny C09_wind_example /\
+  12 * Z.of_nat (length (w_steps C09_wind_example)) < w_body_bytes C09_wind_example + 4 /\
+  length (w_enc C09_wind_example) = 48%nat.
+Proof. vm_compute. repeat split; try reflexivity; discriminate. Qed.
